@@ -66,6 +66,8 @@ def search(chk, broken):
     calc = pbc.Calculator()
     evals = 0
     for _ in range(n):
+        if chk.over():
+            break
         # shipped tables only: a random custom table can interpolate to a NEGATIVE drag coefficient, for which the
         # physical sign clauses (deflection with the wind) do not hold - the theorem has 0 <= drag*dt <= 1 as hypothesis
         shot, _ = sg.gen_shot(pbc, rng, flat=True, allow_cant=False, winds=[], table=getattr(pbc, rng.choice(sg.TABLE_NAMES)))
